@@ -1,157 +1,155 @@
-(* C21 - Loading a file equals parsing its rules one by one.
+(* C21 closed - end to end: a knowledge base printed rule by rule with Display and written to a
+   file loads as exactly that knowledge base.
 
-   Model: Model/Reader.v (src/rule_reader.rs after the five `fix:` commits, `parse_rule` a
-   parameter).  Specification: Spec/SpecLoad.v (`render layout texts`, `legal`, `wf_text`,
-   `expected`, `cut_equiv`).
+   For every list rs of closed rules (Properties/C19closed.v: heads f(t1, ..., tn) or f(); bodies
+   built with conjunction / disjunction from calls, built-in predicates, `l = r`, !, fail, nl,
+   not(..), time(..) over canonical terms) and every layout L of the texts `map rule_text rs`
+   (rule_text r is what Display prints for r) that is
+     - legal (Spec/SpecLoad.v: every line break stands, up to white space, after one of the
+       continuation characters  -  ,  ;  = ; any indentation, trailing white space, blank lines and
+       `#`, `%`, `//` comments outside parentheses and brackets), and
+     - leaves the texts as they are when the reader puts one space at each line break:
+       `expected (lay_rules L) texts = texts` - in particular every `exact_layout` of C21 (each
+       break in front of the single space that follows the continuation character),
+   load_kb_from_file with the REAL parse_rule (Model/Api.api_parse_rule: the real parse_subgoal and
+   parse_complex, the fuel of C18) returns the knowledge base `add_rules kb rs` and no error.
 
-   Proved for ALL rule texts and ALL layouts satisfying the decidable side conditions:
-     C21_load_spec            reading the rendered file gives exactly the rule texts, each with its
-                              pieces trimmed and one space at every line break - never an error,
-                              never another list; and that list equals the given texts up to white
-                              space after the continuation characters where the lines were broken
-     C21_load_never_invents   the form "Ok texts' (equal up to that white space) or an error"
-     C21_load_kb              load_kb_from_file = parse_rule + add_rules over those texts, in order
-     C21_load_kb_exact        ... = over the ORIGINAL texts, for every parser, when each line break
-                              stands in front of a single space of the text
-     C21_load_kb_each         ... = over the original texts, if the parser gives the same result for
-                              a text and its respaced form (hypothesis on the parser; not proved
-                              here: parse_rule is modelled elsewhere; tested by the oracle of gen/C21.py)
-     C21_reader_total etc.    no reader function panics on any input; there is no fuel
-     C21_separate_rules_partition   for EVERY text, what separate_rules returns is the text cut
-                              into consecutive pieces (nothing invented, dropped or reordered)
-   `C21_full` (below) is the statement with the real parser; what is missing for it is named there. *)
-From Suiron Require Import Model.Reader Spec.SpecLoad Proofs.ReaderProofs.
+   Proved on the way: the text of a closed rule is a rule text in the sense of C21 (`wf_text`:
+   its only rule end is its last character, no comment delimiter outside brackets).
+
+   The second hypothesis cannot be dropped: `legal` allows a break after ANY `-`, also the sign of
+   a negative number, and the reader's space then changes the rule (Example
+   break_after_minus_sign_changes_the_rule below: `p(-5).` written `p(-` / `5).` loads as p(- 5)
+   with the atom `- 5`).  In the texts of closed rules every other continuation character is
+   followed by exactly one space (`, `  `; `  ` = `  ` :- `), so the breaks that are excluded are
+   those after a minus sign. *)
 From Coq Require Import String.
+From Suiron Require Import Model.Tokenizer Model.ParseRule Proofs.TokenizerProofs Proofs.GoalRoundtrip.
+From Suiron Require Import Model.ParseTerm Model.ParseGoal Model.Show Model.ShowGoal Model.Api.
+From Suiron Require Import Proofs.TermRoundtrip Proofs.TermRoundtripMain Proofs.GoalLeafParse
+  Proofs.RuleRoundtripClosed Proofs.RuleRoundtripCheck Proofs.LoadClosed.
+From Suiron Require Import Model.Reader Spec.SpecLoad Proofs.ReaderProofs.
 Open Scope N_scope.
+Open Scope string_scope.
 
-Theorem C21_load_spec : forall L texts,
-  legal L texts = true -> forallb wf_text texts = true ->
-  read_facts_and_rules (render L texts) = Ok (ROk (expected (lay_rules L) texts)) /\
-  Forall2 cut_equiv texts (expected (lay_rules L) texts).
-Proof. exact load_spec. Qed.
+Theorem C21_closed_load : forall rs L kb,
+  Forall closed_rule rs ->
+  legal L (map rule_text rs) = true ->
+  expected (lay_rules L) (map rule_text rs) = map rule_text rs ->
+  load_kb_from_file api_parse_rule kb (render L (map rule_text rs)) =
+  (do kb' <- add_rules kb rs; Ok (kb', true)).
+Proof. exact load_closed. Qed.
 
-Theorem C21_load_never_invents : forall L texts r,
-  legal L texts = true -> forallb wf_text texts = true ->
-  read_facts_and_rules (render L texts) = Ok r ->
-  match r with
-  | ROk texts' => Forall2 cut_equiv texts texts'
-  | RErr _ => True
-  end.
-Proof. exact load_never_invents. Qed.
+Theorem C21_closed_load_exact : forall rs L kb,
+  Forall closed_rule rs ->
+  legal L (map rule_text rs) = true ->
+  exact_layout (lay_rules L) (map rule_text rs) = true ->
+  load_kb_from_file api_parse_rule kb (render L (map rule_text rs)) =
+  (do kb' <- add_rules kb rs; Ok (kb', true)).
+Proof. exact load_closed_exact. Qed.
 
-Theorem C21_load_kb : forall parse_rule L texts kb,
-  legal L texts = true -> forallb wf_text texts = true ->
-  load_kb_from_file parse_rule kb (render L texts) =
-  lk_loop parse_rule (expected (lay_rules L) texts) kb.
-Proof. exact load_kb_spec. Qed.
+(* the texts Display prints for closed rules are rule texts in the sense of C21 *)
+Theorem C21_closed_wf_text : forall r, closed_rule r -> wf_text (rule_text r) = true.
+Proof. exact closed_rule_wf_text. Qed.
 
-Theorem C21_load_kb_exact : forall parse_rule L texts kb,
-  legal L texts = true -> forallb wf_text texts = true ->
-  exact_layout (lay_rules L) texts = true ->
-  load_kb_from_file parse_rule kb (render L texts) = lk_loop parse_rule texts kb.
-Proof. exact load_kb_exact. Qed.
+(* each of them parses to its rule with the parser the user calls *)
+Theorem C21_closed_api_parse_rule : forall r,
+  closed_rule r -> api_parse_rule (rule_text r) = Ok (POk r) /\ show_rule r = Ok (rule_text r).
+Proof.
+  intros r H. split; [now apply api_parse_rule_closed|].
+  now destruct (roundtrip_rule_closed r _ _ H (le_n _) (le_n _)) as [Hs _].
+Qed.
 
-Theorem C21_load_kb_each : forall parse_rule L texts kb,
-  legal L texts = true -> forallb wf_text texts = true ->
-  Forall2 (fun t t' => parse_rule t = parse_rule t') texts (expected (lay_rules L) texts) ->
-  load_kb_from_file parse_rule kb (render L texts) = lk_loop parse_rule texts kb.
-Proof. exact load_kb_each. Qed.
+(* with the executable test, from the empty knowledge base *)
+Corollary C21_closed_load_checked : forall rs L,
+  forallb closed_ruleb rs = true ->
+  legal L (map rule_text rs) = true ->
+  exact_layout (lay_rules L) (map rule_text rs) = true ->
+  load_kb_from_file api_parse_rule [] (render L (map rule_text rs)) =
+  (do kb <- add_rules [] rs; Ok (kb, true)).
+Proof.
+  intros rs L H. apply C21_closed_load_exact.
+  apply Forall_forall. intros r Hr. apply closed_ruleb_sound.
+  rewrite forallb_forall in H. now apply H.
+Qed.
 
-(* The full statement: for the model of the real `parse_rule` and layouts whose line breaks
-   stand between tokens.  Missing: that model (another sub-task) and its lemma that white
-   space between tokens does not change the parsed rule (`token_breaks` would be stated with
-   its tokenizer); with them `C21_load_kb_each` gives this at once. *)
-Definition C21_full (parse_rule : str -> res (presult rule))
-                    (token_breaks : layout -> list str -> Prop) : Prop :=
-  forall L texts kb,
-    legal L texts = true -> forallb wf_text texts = true -> token_breaks L texts ->
-    load_kb_from_file parse_rule kb (render L texts) = lk_loop parse_rule texts kb.
+(* ---- non-vacuity: three rules (a list with `| $_`, a goal without arguments, not(..), a cut,
+   a negative number, an atom of two words, `l = r`, a disjunction with fail); the second rule on
+   three lines with indentation, a `#` comment behind its first line and a `%` comment line
+   before its third; a blank line, a comment line first and last ---- *)
+Section Witness.
+  Let A s := TAtom (s2l s).
+  Let V s := TVar 0 (s2l s).
+  Let r1 := mkRule (TComplex [A "member"; V "$X"; make_linked_list true [V "$X"; TAnon]]) GNil.
+  Let r2 := mkRule (TComplex [A "run"])
+     (GOp OAnd [GCall (TComplex [A "init"]);
+                GOp ONot [GCall (TComplex [A "member"; A "a"; make_list_of_terms [A "b"; TInt (-3)]])];
+                GBip (s2l "!") None;
+                GBip (s2l "unify") (Some [V "$Y"; A "New York"])]).
+  Let r3 := mkRule (TComplex [A "p"; V "$X"])
+     (GOp OOr [GCall (TComplex [A "q"; V "$X"]); GBip (s2l "fail") None]).
+  Let rs := [r1; r2; r3].
 
-(* ---- totality: every reader function returns (no Panic; the model has no fuel) ---- *)
-Theorem C21_reader_total : forall lines, exists r, read_facts_and_rules lines = Ok r.
-Proof. exact reader_total. Qed.
+  Let d0 := mkDeco [] [] [] [].
+  Let L := mkLayout
+    [ (mkDeco [mkBlank [] (s2l "% a small knowledge base")] [] [] [], []);
+      (mkDeco [mkBlank [] []] [] (s2l " ") (s2l "# entry point"),
+         [(8%nat, mkDeco [] (s2l "    ") [] []);
+          (36%nat, mkDeco [mkBlank (s2l "  ") (s2l "% then commit")] (s2l "    ") [] [])]);
+      (d0, []) ]
+    [mkBlank [] (s2l "// end")].
 
-Theorem C21_strip_comments_total : forall line rd sd, exists r, strip_comments_at line rd sd = Ok r.
-Proof. exact strip_comments_at_total. Qed.
+  Example C21_closed_witness :
+    map rule_text rs =
+      [ s2l "member($X, [$X | $_]).";
+        s2l "run() :- init(), not(member(a, [b, -3])), !, $Y = New York.";
+        s2l "p($X) :- q($X); fail." ] /\
+    render L (map rule_text rs) =
+      [ s2l "% a small knowledge base";
+        s2l "member($X, [$X | $_]).";
+        [];
+        s2l "run() :- # entry point";
+        s2l "     init(), not(member(a, [b, -3])), !,";
+        s2l "  % then commit";
+        s2l "     $Y = New York.";
+        s2l "p($X) :- q($X); fail.";
+        s2l "// end" ] /\
+    load_kb_from_file api_parse_rule [] (render L (map rule_text rs)) =
+      Ok ([ (s2l "member/2", [r1]); (s2l "run/0", [r2]); (s2l "p/1", [r3]) ], true).
+  Proof.
+    split; [vm_compute; reflexivity|]. split; [vm_compute; reflexivity|].
+    rewrite C21_closed_load_checked by (vm_compute; reflexivity). vm_compute. reflexivity.
+  Qed.
 
-Theorem C21_separate_rules_total : forall text, exists r, separate_rules text = Ok r.
-Proof. exact separate_rules_total. Qed.
+  (* the same by running the model *)
+  Example C21_closed_witness_computed :
+    load_kb_from_file api_parse_rule [] (render L (map rule_text rs)) =
+      Ok ([ (s2l "member/2", [r1]); (s2l "run/0", [r2]); (s2l "p/1", [r3]) ], true).
+  Proof. vm_compute. reflexivity. Qed.
+End Witness.
 
-Theorem C21_check_last_char_total : forall line n, exists r, check_last_char line n = Ok r.
-Proof. exact check_last_char_total. Qed.
+(* ---- `legal` alone is not enough: a break after the sign of a negative number ---- *)
+Example break_after_minus_sign_changes_the_rule :
+  let r := mkRule (TComplex [TAtom (s2l "p"); TInt (-5)]) GNil in
+  let L := mkLayout [ (mkDeco [] [] [] [], [(3%nat, mkDeco [] [] [] [])]) ] [] in
+  closed_ruleb r = true /\
+  rule_text r = s2l "p(-5)." /\
+  legal L [rule_text r] = true /\
+  render L [rule_text r] = [s2l "p(-"; s2l "5)."] /\
+  expected (lay_rules L) [rule_text r] = [s2l "p(- 5)."] /\
+  load_kb_from_file api_parse_rule [] (render L [rule_text r]) =
+    Ok ([ (s2l "p/1", [mkRule (TComplex [TAtom (s2l "p"); TAtom (s2l "- 5")]) GNil]) ], true).
+Proof. vm_compute. repeat split; reflexivity. Qed.
 
-Theorem C21_unmatched_bracket_total : forall line rd sd, exists r, unmatched_bracket line rd sd = Ok r.
-Proof. exact unmatched_bracket_total. Qed.
+Check C21_closed_load : forall rs L kb,
+  Forall closed_rule rs ->
+  legal L (map rule_text rs) = true ->
+  expected (lay_rules L) (map rule_text rs) = map rule_text rs ->
+  load_kb_from_file api_parse_rule kb (render L (map rule_text rs)) =
+  (do kb' <- add_rules kb rs; Ok (kb', true)).
 
-Theorem C21_trim_error_line_total : forall chrs, exists r, trim_error_line chrs = Ok r.
-Proof. exact trim_error_line_total. Qed.
-
-(* for every text at all: the rules returned are consecutive pieces of the text *)
-Theorem C21_separate_rules_partition : forall text rules,
-  separate_rules text = Ok (ROk rules) ->
-  exists rest, all_ws rest = true /\ List.concat rules ++ rest = text.
-Proof. exact separate_rules_partition. Qed.
-
-(* ---- the hypotheses are satisfiable by a non-trivial program: a float literal, an infix `=`
-   broken after the `=`, a quoted atom with a period and a comment delimiter, comments,
-   indentation, a blank line, a line break inside parentheses ---- *)
-Definition ex_texts : list str :=
-  [s2l "p($X) :- $X = 1.5, q(""a. b # c""), r(1)."; s2l "q(a, [b, c])."].
-
-Definition ex_layout : layout :=
-  let d0 := mkDeco [] [] [] [] in
-  mkLayout
-    [ (mkDeco [mkBlank [] (s2l "# facts and rules"); mkBlank (s2l "  ") []] [] (s2l " ") (s2l "% head"),
-       [(8%nat, mkDeco [] (s2l "    ") [] []);
-        (5%nat, mkDeco [mkBlank (s2l "    ") (s2l "// a float")] (s2l "       ") [] []);
-        (5%nat, mkDeco [] (s2l "    ") [9] (s2l "# the rest"))]);
-      (d0, [(4%nat, mkDeco [] (s2l "  ") [] (s2l "// done"))]) ]
-    [mkBlank [] (s2l "% end")].
-
-Example C21_example :
-  legal ex_layout ex_texts = true /\
-  forallb wf_text ex_texts = true /\
-  exact_layout (lay_rules ex_layout) ex_texts = true /\
-  render ex_layout ex_texts =
-    [ s2l "# facts and rules";
-      s2l "  ";
-      s2l "p($X) :- % head";
-      s2l "     $X =";
-      s2l "    // a float";
-      s2l "        1.5,";
-      s2l "     q(""a. b # c""), r(1)." ++ [9] ++ s2l "# the rest";
-      s2l "q(a,";
-      s2l "   [b, c]).// done";
-      s2l "% end" ] /\
-  read_facts_and_rules (render ex_layout ex_texts) = Ok (ROk ex_texts).
-Proof. vm_compute. repeat split. Qed.
-
-(* the boundary of the domain: a bracket between quotes, an escaped bracket and a period that
-   is not a decimal point inside an atom are not rule texts in the sense of wf_text *)
-Example C21_outside_domain :
-  wf_text (s2l "p(""("").") = false /\ wf_text (s2l "a(\().") = false /\
-  wf_text (s2l "v(1) :- $X = e.g, r.") = false /\ wf_text (s2l "p($X) :- $X = 50% , q.") = false.
-Proof. vm_compute. repeat split. Qed.
-
-Check C21_load_spec : forall L texts,
-  legal L texts = true -> forallb wf_text texts = true ->
-  read_facts_and_rules (render L texts) = Ok (ROk (expected (lay_rules L) texts)) /\
-  Forall2 cut_equiv texts (expected (lay_rules L) texts).
-Check C21_reader_total : forall lines, exists r, read_facts_and_rules lines = Ok r.
-Check C21_load_kb_exact : forall parse_rule L texts kb,
-  legal L texts = true -> forallb wf_text texts = true ->
-  exact_layout (lay_rules L) texts = true ->
-  load_kb_from_file parse_rule kb (render L texts) = lk_loop parse_rule texts kb.
-
-Print Assumptions C21_load_spec.
-Print Assumptions C21_load_never_invents.
-Print Assumptions C21_load_kb.
-Print Assumptions C21_load_kb_exact.
-Print Assumptions C21_load_kb_each.
-Print Assumptions C21_reader_total.
-Print Assumptions C21_strip_comments_total.
-Print Assumptions C21_separate_rules_total.
-Print Assumptions C21_check_last_char_total.
-Print Assumptions C21_unmatched_bracket_total.
-Print Assumptions C21_trim_error_line_total.
-Print Assumptions C21_separate_rules_partition.
+Print Assumptions C21_closed_load.
+Print Assumptions C21_closed_load_exact.
+Print Assumptions C21_closed_wf_text.
+Print Assumptions C21_closed_load_checked.
+Print Assumptions C21_closed_api_parse_rule.
